@@ -43,6 +43,8 @@ RULE = (
     'flags, scalars for constant profiles, strided views and read-only arrays. '
     'Boundary coefficient sets: each of 13 single-coefficient boundary values (zero descent-thrust, fuel, drag and '
     'temperature coefficients, neutral cruise factors, h_p_des=0) on descent and mixed profiles. '
+    'Altitude extremes: -300 m ... -1 denormal, 0, tropopause +/- 1 ulp, 24 999 m and 25 000 m as point altitudes '
+    'and as the low end of climb / descent / mixed profiles. '
     'A profile case is '
     'non-trivial when fuel was burnt; distinct = distinct case'
 )
@@ -172,6 +174,14 @@ PVARS = {
 }
 
 
+# Extremes of the altitude range the atmosphere helpers accept: below sea level, around 0, around the
+# tropopause (+/- 1 ulp), just below the 25 km limit (case key 'altx' indexes this list).
+ALT_EXTREMES = [
+    -300.0, -50.0, -3.0, -5e-324, 0.0, 5e-324, 50.0,
+    math.nextafter(11000.0, 0.0), 11000.0, math.nextafter(11000.0, 1e9), 24999.0, 25000.0,
+]  # fmt: skip
+
+
 def _pset(case):
     s = PSETS[case['eng']][case['ps']]
     pv = case.get('pvar')
@@ -199,7 +209,7 @@ def _dt_value(s, d):
 def _point_inputs_base(case):
     s = _pset(case)
     env = s['env']
-    alt = _alt_value(s, env['alts'][case['alt']])
+    alt = ALT_EXTREMES[case['altx']] if 'altx' in case else _alt_value(s, env['alts'][case['alt']])
     temp = ref.isa_temperature(alt) + _dt_value(s, DT[case['dT']])
     m = s['par'][MASSES[case['m']]]
     pts = list(
@@ -226,6 +236,8 @@ def _profile_inputs_base(case):
     env = s['env']
     n = case['n']
     lo, hi = env['h_lo'], env['h_cr']
+    if 'altx' in case:  # the profile starts / ends at one of the altitude extremes
+        lo = ALT_EXTREMES[case['altx']]
     alt, rocd, acc, v = [], [], [], []
     for i in range(n):
         t = i / (n - 1)
@@ -457,6 +469,31 @@ def sublattices(tier, seed):
                     var = dict(b, vary=a)
                     for inplace in (False, True):
                         cases += [dict(k='hist', a=b, b=var, inplace=inplace), dict(k='hist', a=var, b=b, inplace=inplace)]
+    # altitude extremes: points at each extreme (all speeds / climb rates / accelerations, so that the
+    # total-energy thrust decides at many of them), and climbs / descents / mixed profiles whose low end
+    # is one of the extremes at or below 50 m
+    xcases = []
+    for eng in ENGINES:
+        for ps in (0, 1):
+            base = dict(eng=eng, ps=ps)
+            for ax in range(len(ALT_EXTREMES)):
+                xcases += [dict(base, k='pt', altx=ax, dT=d, cr=2, m=m) for d in (1, 3) for m in (0, 2)]
+                if ALT_EXTREMES[ax] > 50.0:
+                    continue
+                for pr in ('climb', 'descent', 'mixed'):
+                    prof = dict(base, n=5, prof=pr, spd='accelerating', cr='middle', seg=50000.0, gs=0.0, m=1, it=10, altx=ax)
+                    xcases += [dict(prof, k='ci'), dict(prof, k='cf')]
+                    xcases += [dict(prof, k=k, est='ref', mtow='max', lf=1.0, res=1) for k in ('fr', 'fv')]
+    subs.append(
+        {
+            'name': 'altitude extremes (below sea level, 0, tropopause +/- 1 ulp, 25 km limit)',
+            'axes': {
+                'eng': ENGINES, 'ps': [0, 1], 'altitude': ALT_EXTREMES, 'entry': ['pt', 'ci', 'cf', 'fr', 'fv'],
+                'profile': ['climb', 'descent', 'mixed'], 'dT': ['0', 'c_tc4+10'], 'mass': ['min', 'max'],
+            },  # fmt: skip
+            'cases': xcases,
+        }
+    )
     # parameter sets with one coefficient on a boundary value (exact zeros / neutral values)
     bcases = []
     for eng in ENGINES:
